@@ -334,6 +334,21 @@ func MaybeLongJunk(t *rapid.T) []byte {
 	return b
 }
 
+// frameOrRepeat draws a fresh valid frame or (about one time in four, when there is one) repeats a
+// frame that is already in the stream - base stations send the same 1005 / 1230 frames over and over.
+func frameOrRepeat(t *rapid.T, s Stream, maxLen int) []byte {
+	var earlier [][]byte
+	for _, g := range s.Segs {
+		if g.Kind == "valid" {
+			earlier = append(earlier, g.Data)
+		}
+	}
+	if len(earlier) > 0 && rapid.IntRange(0, 3).Draw(t, "repeatFrame") == 2 {
+		return append([]byte{}, rapid.SampledFrom(earlier).Draw(t, "whichEarlier")...)
+	}
+	return ValidFrame(t, maxLen)
+}
+
 // Weights of the segment grammar.
 type Weights struct {
 	Valid, Junk, JunkD3, Corrupt, Truncated, Near, Raw int
@@ -355,13 +370,13 @@ func AnyStream(t *rapid.T, w Weights, maxSegs, maxLen int) Stream {
 		x := rapid.IntRange(0, total-1).Draw(t, "segKind")
 		switch {
 		case x < w.Valid:
-			s.Segs = append(s.Segs, Segment{Kind: "valid", Data: ValidFrame(t, maxLen)})
+			s.Segs = append(s.Segs, Segment{Kind: "valid", Data: frameOrRepeat(t, s, maxLen)})
 		case x < w.Valid+w.Junk:
 			s.Segs = append(s.Segs, Segment{Kind: "junk", Data: Junk(t, false, 40)})
 		case x < w.Valid+w.Junk+w.JunkD3:
 			s.Segs = append(s.Segs, Segment{Kind: "junk", Note: "may-contain-d3", Data: Junk(t, true, 40)})
 		case x < w.Valid+w.Junk+w.JunkD3+w.Corrupt:
-			d, note := Corrupt(t, ValidFrame(t, maxLen))
+			d, note := Corrupt(t, frameOrRepeat(t, s, maxLen))
 			s.Segs = append(s.Segs, Segment{Kind: "corrupt", Note: note, Data: d})
 		case x < w.Valid+w.Junk+w.JunkD3+w.Corrupt+w.Truncated:
 			d, note := Truncate(t, ValidFrame(t, maxLen))
@@ -403,7 +418,7 @@ func CleanStream(t *rapid.T, maxSegs, maxLen int, allowTail bool) Stream {
 		if rapid.IntRange(0, 9).Draw(t, "isJunk") < 3 {
 			s.Segs = append(s.Segs, Segment{Kind: "junk", Data: Junk(t, false, 40)})
 		} else {
-			s.Segs = append(s.Segs, Segment{Kind: "valid", Data: ValidFrame(t, maxLen)})
+			s.Segs = append(s.Segs, Segment{Kind: "valid", Data: frameOrRepeat(t, s, maxLen)})
 		}
 	}
 	if allowTail && rapid.IntRange(0, 3).Draw(t, "tail") == 0 {
